@@ -704,6 +704,21 @@ impl<'tcx> Cx<'tcx> {
                                     let _ = write!(out, ",\"v\":\"{}\"", si.to_bits_unchecked());
                                 }
                             }
+                        } else if let ty::Ref(_, inner, _) = t.kind() {
+                            if inner.is_str() {
+                                if let Ok(val) = tcx.const_eval_poly(did) {
+                                    if !matches!(
+                                        val,
+                                        rustc_middle::mir::ConstValue::Scalar(_)
+                                            | rustc_middle::mir::ConstValue::ZeroSized
+                                    ) {
+                                        if let Some(bytes) = val.try_get_slice_bytes_for_diagnostics(tcx) {
+                                            let sv = String::from_utf8_lossy(bytes).to_string();
+                                            let _ = write!(out, ",\"s\":{}", esc(&sv));
+                                        }
+                                    }
+                                }
+                            }
                         }
                         out.push_str("}\n");
                     }
